@@ -267,6 +267,7 @@ inductive Outcome
   | ok (outs : Nat)      -- returns `outs` fresh messages and no error
   | err                  -- returns an error
   | panic                -- panics
+  | pass (pre post : Nat) -- pass-through: returns `pre` fresh messages, the CONSUMED message object itself, `post` fresh ones
   deriving DecidableEq, Repr, Inhabited
 
 /-- one observation of `handler_execution_time_seconds` -/
@@ -281,6 +282,7 @@ def handlerObs (h : String) : Outcome → HObs
   | .ok _ => ⟨h, true⟩
   | .err => ⟨h, false⟩
   | .panic => ⟨h, false⟩
+  | .pass _ _ => ⟨h, true⟩
 
 /-- the code before the repair (finding D4): the deferred observer only looked at the named result `err`,
     which is still nil while a panic unwinds -/
@@ -288,6 +290,7 @@ def handlerObsOld (h : String) : Outcome → HObs
   | .ok _ => ⟨h, true⟩
   | .err => ⟨h, false⟩
   | .panic => ⟨h, true⟩
+  | .pass _ _ => ⟨h, true⟩
 
 structure RWorld where
   pw : PWorld := {}
@@ -309,25 +312,37 @@ def produced (h pn sn : String) (base : Nat) : Nat → List Msg
   | 0 => []
   | n + 1 => ⟨base, [], none, false, false, h, pn, sn⟩ :: produced h pn sn (base + 1) n
 
+/-- what the handler hands to the Router for publishing (`none`: error or panic).  `consumed` is the message object the
+    handler received – it went through the subscriber decorators, so its context carries the SUBSCRIBE mark (and not
+    the publish mark: the two marks are different context keys). -/
+def outputsOf (h pn sn : String) (i : Nat) (consumed : Msg) : Outcome → Option (List Msg)
+  | .ok n => some (produced h pn sn (1000 * (i + 1)) n)
+  | .pass pre post =>
+    some (produced h pn sn (1000 * (i + 1)) pre ++ consumed :: produced h pn sn (1000 * (i + 1) + 500) post)
+  | .err => none
+  | .panic => none
+
+/-- `publishProducedMessages` + the settlement of the consumed message: nothing to publish ⇒ ack; error / panic ⇒ nack;
+    otherwise ONE Publish call on the decorated publisher, ack iff it returned nil -/
+def settleAndPublish (pn : String) (kp : Nat) (pw : PWorld) : Option (List Msg) → Settle × PWorld
+  | none => (.nack, pw)
+  | some [] => (.ack, pw)
+  | some (m0 :: tl) =>
+    let r := publish pn (nMetrics kp) "out" (m0 :: tl) pw
+    (if r.1.isNone then .ack else .nack, r.2.2)
+
 /-- one message through a Router handler `h` whose publisher and subscriber are decorated `kp` / `ks` times with the
     metrics decorators and whose handler function is wrapped `km` times by the metrics middleware
     (`handler.handleMessage` + `publishProducedMessages`).  The middleware carries no "already observed" mark:
     every application observes the invocation it wraps (error and panic pass through all of them). -/
 def routerStep (h pn sn : String) (kp ks km : Nat) (i : Nat) (o : Outcome) (w : RWorld) : RWorld :=
   -- the router's own context decorator sits below the subscriber decorators
-  let inc : Msg := ⟨i, [], none, false, false, h, pn, sn⟩
-  let d := deliver sn (nSubMetrics ks) inc
-  let w1 := { w with hobs := w.hobs ++ List.replicate km (handlerObs h o) }
-  let (settle, pw) : Settle × PWorld :=
-    match o with
-    | .ok 0 => (.ack, w1.pw)
-    | .ok (n + 1) =>
-      let r := publish pn (nMetrics kp) "out" (produced h pn sn (1000 * (i + 1)) (n + 1)) w1.pw
-      (if r.1.isNone then .ack else .nack, r.2.2)
-    | .err => (.nack, w1.pw)
-    | .panic => (.nack, w1.pw)
-  { w1 with pw := pw, settles := w1.settles ++ [settle],
-            sobs := w1.sobs ++ subCounts (fun _ => settle) d.2 }
+  let d := deliver sn (nSubMetrics ks) ⟨i, [], none, false, false, h, pn, sn⟩
+  let sp := settleAndPublish pn kp w.pw (outputsOf h pn sn i d.1 o)
+  { pw := sp.2,
+    hobs := w.hobs ++ List.replicate km (handlerObs h o),
+    settles := w.settles ++ [sp.1],
+    sobs := w.sobs ++ subCounts (fun _ => sp.1) d.2 }
 
 def routerRun (h pn sn : String) (kp ks km : Nat) : Nat → List Outcome → RWorld → RWorld
   | _, [], w => w
